@@ -37,6 +37,9 @@ PANIC_CALLEES = [
     "core::num::<impl i32>::abs", "core::num::<impl i64>::abs",
     "core::iter::traits::iterator::Iterator::step_by",
 ]
+ARITH_TRAIT_METHODS = {"core::ops::arith::Add::add", "core::ops::arith::Sub::sub", "core::ops::arith::Mul::mul", "core::ops::arith::AddAssign::add_assign",
+                       "core::ops::arith::SubAssign::sub_assign", "core::ops::arith::MulAssign::mul_assign", "core::ops::arith::Div::div"}
+PANICKING_ARITH_TYPES = ("std::time::SystemTime", "std::time::Instant", "core::time::Duration", "tokio::time::instant::Instant")
 RUINT_FROM = "ruint::from::<impl ruint::Uint<BITS, LIMBS>>::from"
 SAFE_UINT_FROM_TYPES = {"u8", "u16", "u32", "u64", "u128", "usize", "bool"}
 
@@ -256,6 +259,12 @@ def panic_sites(F, body):
             hit = nc
         elif _pm(ng, PANIC_CALLEES):
             hit = ng
+        elif ng in ARITH_TRAIT_METHODS and c["arg_tys"] and any(c["arg_tys"][0].lstrip("&").startswith(t) for t in PANICKING_ARITH_TYPES):
+            # operator impls of std time types panic on overflow/underflow in every build profile
+            hit = "%s on %s" % (ng.split("::")[-1], c["arg_tys"][0])
+        elif ng in ("core::ops::arith::Div::div", "core::ops::arith::Rem::rem", "core::ops::arith::DivAssign::div_assign", "core::ops::arith::RemAssign::rem_assign") \
+                and c["arg_tys"] and c["arg_tys"][0].lstrip("&").startswith("ruint::Uint"):
+            hit = "%s on %s (division by zero panics)" % (ng.split("::")[-1], c["arg_tys"][0])
         elif nc == RUINT_FROM:
             at = c["arg_tys"][0] if c["arg_tys"] else "?"
             if at not in SAFE_UINT_FROM_TYPES and not c["consts"]:
